@@ -40,6 +40,11 @@ try:
         res["apply_output"] = o[-1500:]
         raise SystemExit
     sh("git reset -q", wt)
+    # re-base the patch on the current HEAD (context may have moved)
+    rc, o = sh("git diff -- . ':(exclude)MUTATION.diff'", wt)
+    if o.strip():
+        patch = o
+        open(os.path.join(wt, "MUTATION.diff"), "w").write(patch)
     rc, o = sh("go build ./... 2>&1 | grep -v 'GNU-stack\\|deprecated\\|^#' ; exit ${PIPESTATUS[0]}", wt)
     rc, o = sh("go build ./...", wt)
     res["steps"]["build"] = rc == 0
